@@ -29,9 +29,18 @@ PLAN = {
     "C03": {
         "mc": [],
         "families": [{"gen": ("tlc", {"name": "framing-table", "tla": "MC_Framing.tla", "cfg": "MC_Framing.cfg", "workers": 8}),
-                      "runner": "exchange", "trace": "Trace_Exchange"}],
+                      "runner": "exchange", "trace": "Trace_Exchange", "attribute_all": True}],
         "rule": "rows of the RFC 9112 6.3 decision table enumerated by TLC (method x status x Content-Length lists x Transfer-Encoding lists x trailing octets); each row is a real exchange whose delivered octets are judged",
         "assumptions": ASSUME_X,
+    },
+    "C04": {
+        "mc": [],
+        "families": [{"gen": ("tlc", {"name": "head-rows", "tla": "MC_Head.tla", "cfg": "MC_Head.cfg", "cfg_thorough": "MC_Head_thorough.cfg", "workers": 8}),
+                      "runner": "head", "trace": "Trace_Head"},
+                     fam("h_large", runner="head", trace="Trace_Head")],
+        "rule": "heads over a symbol alphabet enumerated by TLC (names x value strings incl. SP, HTAB, bare LF, obs-text; duplicates; Transfer-Encoding), each under 5 segmentations; structured large heads (all status codes, header counts at max_headers, values to 16 KiB, blocks > 64 KiB) seeded-random",
+        "assumptions": ASSUME_X + ["values are compared modulo SP/HTAB at their ends (laxer reading of 'surrounding spaces')"],
+        "replay_runner": "head", "replay_trace": "Trace_Head",
     },
     "C19": {
         "mc": [MC_EXCHANGE],
